@@ -163,6 +163,80 @@ def marked_rules(ck):
                   "a node is merged into a child under (one child: %s, has value: %s): the tree shape is no longer canonical / entries are lost" % (one, hv), f.loc(bi))
     ck.floor("DOM", "path-compression sites", ncol, 3)
 
+    # positions recorded on the way down: `father = Some((slot in the father's child list, index of the father))` etc. When a
+    # node's child list is indexed or cut at a recorded slot, slot and node index must come out of the SAME record; a slot
+    # taken from another record (the deleted leaf's slot in its father used in the grandfather's list) rewires the wrong child
+    def record_of(f, op):
+        """(root local, field number) when the operand is a copy of `<local as Some>.0.<n>` / `<local>.<n>`"""
+        r = rules.root_local(f, op)
+        if not r or r[1]:
+            return None
+        ds = f.defs().get(r[0], [])
+        if len(ds) != 1 or ds[0][1] == "t" or ds[0][2]["rv"].get("k") != "use":
+            return None
+        q = op_place(ds[0][2]["rv"]["a"])
+        if not q or len(q[1]) < 1:
+            return None
+        m = re.search(r"f(\d+)", str(q[1][-1]))
+        if not m:
+            return None
+        return (q[0], tuple(str(x) for x in q[1][:-1]), int(m.group(1)))
+    nrec = 0
+    for name in ("delete", "delete_prefix"):
+        f = getfn(ck, "sc", E, LL + "MutableTrie::" + name)
+        if not f:
+            continue
+        sites_ = [(bi, t["args"][1], t["args"][0]) for (bi, t) in f.calls(r"ops::IndexMut::index_mut$|Vec::<.*>::remove$") if len(t["args"]) >= 2]
+        # built-in slice indexing `&mut list[slot]` is a place projection, not a call
+        for bi in sorted(f.reachable()):
+            for st in f.stmts(bi):
+                rv = st.get("rv", {})
+                if rv.get("k") == "ref" and rv.get("mut"):
+                    for x in rv["p"][1]:
+                        m = re.match(r"^i(\d+)$", str(x))
+                        if m:
+                            sites_.append((bi, {"c": [int(m.group(1)), []]}, {"c": [rv["p"][0], []]}))
+        for (bi, posop, recvop) in sites_:
+            pos = record_of(f, posop)
+            if pos is None:
+                continue
+            # which node does the list belong to: the index handed to make_owned / get_unchecked_mut / index_mut on the node table
+            node_recs = set()
+            # walk back from the list to the node it belongs to (precisely: no loop-carried merging)
+            work, seen_ = [op_place(recvop)], set()
+            while work:
+                q = work.pop()
+                if q is None or q[0] in seen_:
+                    continue
+                seen_.add(q[0])
+                for (b2, si, it) in f.defs().get(q[0], []):
+                    if si == "t":
+                        pth = it["f"].get("path", "")
+                        if pth.endswith("low_level::make_owned"):
+                            rr_ = record_of(f, it["args"][0])
+                            if rr_ is not None:
+                                node_recs.add(rr_[:2])
+                        elif re.search(r"get_unchecked_mut$|ops::IndexMut::index_mut$|::get_mut$", pth) and len(it["args"]) > 1:
+                            rr_ = record_of(f, it["args"][1])
+                            if rr_ is not None:
+                                node_recs.add(rr_[:2])
+                        elif re.search(r"get_owned_mut$|deref_mut$|as_mut$|::expect$|::unwrap$|as_mut_slice$", pth) and it["args"]:
+                            work.append(op_place(it["args"][0]))
+                        continue
+                    rv = it["rv"]
+                    if rv.get("k") in ("use", "cast"):
+                        work.append(op_place(rv["a"]))
+                    elif rv.get("k") == "ref":
+                        work.append(rv["p"])
+            if not node_recs:
+                continue
+            nrec += 1
+            ok = pos[:2] in node_recs
+            ck.ob("DEFUSE", f.path, "slot-and-node-from-the-same-record#%d" % nrec, ok,
+                  "the child list of a recorded node is changed at the slot recorded with it" if ok else
+                  "a child list is changed at a slot that was recorded for a DIFFERENT node (slot from %s, list of %s): the wrong child pointer is rewired" % (pos[:2], sorted(node_recs)), f.loc(bi))
+    ck.floor("DEFUSE", "recorded slots used on recorded nodes", nrec, 3)
+
     # values written by an older generation are never overwritten in place: `values[i] = ..` / `&mut values[i]` is reached
     # only for an entry of the current generation (`Entry::Mutable`, directly or through `is_owned()`); every other kind of
     # entry gets a fresh slot (an in-place write through a read-only entry changes the generation it was inherited from)
